@@ -282,7 +282,7 @@ def noCont : Sess → Bool
   | .forEach b => noCont b
   | .defer c b => noCont c && noCont b
   | .scope _ b => noCont b
-  | .when _ b => noCont b
+  | .when c b => c == .never || noCont b
   | _ => true
 
 theorem each_mode_ne (m : Mode) (f : List String → St → St) (hf : ∀ pk s, s.mode ≠ m → (f pk s).mode ≠ m) :
@@ -462,10 +462,14 @@ theorem noCont_mode (p : Sess) (hq : noCont p = true) : ∀ (env : Env) (s : St)
   | scope c b ih => intro env s h; simp only [exec]; exact ih hq env s h
   | «when» c b ih =>
     intro env s h
+    simp only [noCont, Bool.or_eq_true, beq_iff_eq] at hq
     simp only [exec]
     split
     · split
-      · exact ih hq env s h
+      · rename_i hc
+        rcases hq with hq | hq
+        · subst hq; simp [evalCond] at hc
+        · exact ih hq env s h
       · exact h
     · exact h
   | recv ρ p =>
